@@ -293,6 +293,10 @@ func Controller(thorough bool, expired func() bool, level func(name string, comp
 		yield(FlowMod(0, nil, Instr(k, 1)))
 	}
 	yield(FlowMod(0, nil, Instr("instr_meter", 2), Instr("instr_goto_table", 3)))
+	// the action-list instruction type with the clear-actions code accepts actions like its siblings
+	// (the switch will refuse them; the library must still frame what it was given)
+	yield(FlowMod(0, nil, Instr("instr_clear_actions", 2, Action("act_output", 1)), Instr("instr_goto_table", 3)))
+	yield(FlowMod(0, nil, Instr("instr_goto_table", 3), Instr("instr_clear_actions", 2, Action("act_output", 1), Action("act_group", 2))))
 	if done("L1 every single action of the extended alphabet in every container; every match field alone") {
 		return
 	}
